@@ -7,11 +7,11 @@ Driver for C01.  An abstract case is one protocol line
 
   mode   = parse | multi | flat | read | readmulti | readflat | readflatgz
   (also  c01 raw mode text : raw text given to the parser as it is, outside the domain, correspondence only)
-  record = name mol(0-3) topo(0/1) division(0-17) date pads originTrail blockLen perLine
+  record = name mol(0-3) topo(0/1) division(0-17) date pads originTrail blockLen perLine extraCuts omit(5 x 0/1: DEF ACC VER KEY SRC)
            definition bs accession bs version bs keywords bs source bs organism bs
            nrefs { range bs authors bs title bs journal bs pubmed bs remark bs }*
            nextras { key text bs }*
-           nfeat { key loc bs nq { key value bs }* }*
+           nfeat { key loc bs nq { key value bs style(0 quoted,1 unquoted,2 no value) }* }*
            seq
   bs / pads = comma-separated naturals (break positions, see Spec/GbLayout.lean)
 
@@ -48,15 +48,15 @@ def pRef : P (RRef × RefLayout) := do
   return ({ range, authors, title, journal, pubmed, remark },
           { range := gb, authors := ab, title := tb, journal := jb, pubmed := pb, remark := rb })
 
-def pQual : P ((Str × Str) × List Nat) := do
-  let k ← tokStr; let v ← tokStr; let b ← tokNats
-  return ((k, v), b)
+def pQual : P ((Str × Str) × List Nat × Nat) := do
+  let k ← tokStr; let v ← tokStr; let b ← tokNats; let st ← tokNat
+  return ((k, v), b, st)
 
 def pFeat : P (RFeature × FeatLayout) := do
   let key ← tokStr; let loc ← tokStr; let lb ← tokNats
   let nq ← tokNat
   let qs ← rep pQual nq
-  return ({ key, loc, quals := qs.map (·.1) }, { loc := lb, quals := qs.map (·.2) })
+  return ({ key, loc, quals := qs.map (·.1) }, { loc := lb, quals := qs.map (·.2.1), styles := qs.map (·.2.2) })
 
 def molOf : Nat → MolType | 0 => .dna | 1 => .mrna | 2 => .trna | _ => .rrna
 
@@ -64,6 +64,8 @@ def pRec : P (GbRec × RecLayout) := do
   let name ← tokStr
   let mol ← tokNat; let topo ← tokNat; let division ← tokNat; let date ← tokStr
   let pads ← tokNats; let originTrail ← tokBool; let blockLen ← tokNat; let perLine ← tokNat
+  let extraCuts ← tokNats; let omitS ← tokStr
+  let om (i : Nat) : Bool := omitS.getD i '0' == '1'
   let definition ← tokStr; let db ← tokNats
   let accession ← tokStr; let ab ← tokNats
   let version ← tokStr; let vb ← tokNats
@@ -82,7 +84,8 @@ def pRec : P (GbRec × RecLayout) := do
             refs := refs.map (·.1), extras := exs.map (·.1), features := fs.map (·.1), seq },
           { pads, definition := db, accession := ab, version := vb, keywords := kb, source := sb, organism := ob
             refs := refs.map (·.2), extras := exs.map (·.2), feats := fs.map (·.2)
-            originTrail, blockLen, perLine })
+            originTrail, blockLen, perLine, extraCuts
+            omitDefinition := om 0, omitAccession := om 1, omitVersion := om 2, omitKeywords := om 3, omitSource := om 4 })
 
 structure Case where
   mode : String
@@ -172,16 +175,18 @@ def judge (f out : List String) : Verdict :=
     let pairs := zipLay c.recs c.lay.recs
     let single := c.mode == "parse" || c.mode == "read"
     let flat := c.mode == "flat" || c.mode == "readflat" || c.mode == "readflatgz"
-    let inDom := c.recs.all (fun r => wf r && r.seq.length ≥ 1) && c.recs.length ≥ 1
+    let inDom := c.recs.all (fun r => wfLoose r && r.seq.length ≥ 1) && c.recs.length ≥ 1
       && (if single then c.recs.length == 1 && c.lay.header.isNone else true)
       && (flat == c.lay.header.isSome)
       && pairs.all (fun p => noSlashEnd p.1 p.2)
     let nfeat := (c.recs.map (·.features.length)).sum
     let multiloc := pairs.any (fun p => (zipF p.1.features p.2.feats).any (fun q => (cutLoc q.2.loc q.1.loc).length > 1))
-    let cls := c.mode ++ "/r" ++ toString c.recs.length
+    let kf := if c.recs.any repeatedQualKey then " kf:C01-repeated-qualifier-key" else ""
+    let triv := if nfeat == 0 && c.recs.all (fun r => r.refs.isEmpty) then "triv:" else ""
+    let cls := triv ++ c.mode ++ "/r" ++ toString c.recs.length
       ++ (if c.lay.finalNewline then "/nl" else "/nonl")
       ++ (if nfeat == 0 then "/f0" else if nfeat ≤ 5 then "/f1-5" else "/f6+")
-      ++ (if multiloc then "/multiloc" else "")
+      ++ (if multiloc then "/multiloc" else "") ++ kf
     { corr := outN == m, judge := if inDom then some (outN == expected) else none, cls := cls
       detail := if outN == m && outN == expected then "" else
         "model: " ++ lineOf (m.map fun x => if x.length > 300 then (x.take 300).toString ++ "…" else x) ++ "  expected: "
